@@ -124,3 +124,12 @@ func H19_Import() {
 	}
 	verif.Reach("end")
 }
+
+// H19_MulContract: the contract under which the quick tier abstracts floating-point multiplications: for binary64
+// x, y in [0,1] the rounded product lies in [0, min(x, y)].
+func H19_MulContract() {
+	x, y := unit("x"), unit("y")
+	m := x * y
+	verif.Assert(verif.And(m >= 0, m <= x, m <= y), "for x, y in [0,1]: 0 <= x*y <= min(x, y) in binary64 round-to-nearest")
+	verif.Reach("end")
+}
